@@ -42,6 +42,11 @@ def outcome(got):
     return ("internal", type(got[1]).__name__, got[2])
 
 
+def _errtext(e):
+    import re
+    return re.sub(r"0x[0-9a-fA-F]+", "0x", str(e))
+
+
 def mutate_everything(cfg):
     from zcv import dt as zdt
     seen = set()
@@ -199,6 +204,10 @@ def run_history(ast, packages, ops):
                 if a[0] != f[0]:
                     out.append(("aged-schema-differs-from-fresh:%s-vs-%s" % (a[0], f[0]),
                                 "step %d %r" % (k, op.get("text", "")[:200])))
+                elif a[0] == "reject" and (a[1] != f[1] or _errtext(got_aged[1]) != _errtext(got_fresh[1])):
+                    # same code, same text, same files: the refusal itself is part of the outcome
+                    out.append(("aged-schema-differs-from-fresh:error",
+                                "step %d: %s: %s  vs  %s: %s" % (k, a[1], _errtext(got_aged[1])[:150], f[1], _errtext(got_fresh[1])[:150])))
                 elif a[0] == "ok":
                     d = digest.first_diff(f[1], a[1])
                     if d:
@@ -212,11 +221,21 @@ def run_history(ast, packages, ops):
                                                               if t.get("abstract") and n in baseline["types"] else t)
                                                           for n, t in now["types"].items()}}
                     only_impl = digest.first_diff(baseline, probe) is None
-                if only_impl:
+                pkg_types = set(t["name"].lower() for pa in packages.values() for t in pa["types"])
+                added = set()
+                for n_, lst in implementers(now).items():
+                    added |= set(lst) - set(implementers(baseline).get(n_, []))
+                removed = any(set(implementers(baseline).get(n_, [])) - set(lst) for n_, lst in implementers(now).items())
+                if only_impl and op.get("import") and added and added <= pkg_types and not removed:
+                    # the one recorded finding (D9): a load with %import leaves the component's
+                    # implementers on the application schema's abstract types -- nothing else
                     if not d9_reported:
                         out.append(("schema-description-changed:implementers-after-%import",
                                     "step %d: %s" % (k, d)))
                         d9_reported = True
+                    baseline = now
+                elif only_impl:
+                    out.append(("schema-description-changed:implementers", "step %d (%s, no %%import in this step): %s" % (k, op["op"], d)))
                     baseline = now
                 else:
                     out.append(("schema-description-changed", "step %d (%s): %s" % (k, op["op"], d)))
